@@ -58,7 +58,8 @@ var c07Pool = sync.Pool{New: func() interface{} {
 		panic(err)
 	}
 	// G guards the descriptor observation: a Go runtime panic inside otto is not catchable by a
-	// JavaScript try/catch and would abort the whole script; Value.Call turns it into an error.
+	// JavaScript try/catch and would abort the whole script. Since fix f48e83f (fromPropertyDescriptor)
+	// the model never predicts token P any more, so a panic here (token P / E:…) is a VIOLATION.
 	vm.Set("G", func(call otto.FunctionCall) (res otto.Value) {
 		defer func() {
 			if r := recover(); r != nil {
